@@ -246,6 +246,20 @@ impl<'a> Encoder<'a> {
             }
             return;
         }
+        // The reader meets the header before the chunks, so the names in it get their string ids
+        // first - in header order - and whatever deduplicated strings the fields hold come after.
+        for s in &def.steps {
+            let name = match s {
+                Step::Removed(n) | Step::MadeTransient(n) => Some(n),
+                Step::MadeOptional(n) if !def.fields.iter().any(|f| f.name == *n && f.transient.is_none()) => Some(n),
+                _ => None,
+            };
+            if let Some(n) = name {
+                if !self.strings.iter().any(|x| x == n) {
+                    self.strings.push(n.clone());
+                }
+            }
+        }
         // chunks
         let mut chunks: Vec<Vec<u8>> = vec![Vec::new(); ver as usize + 1];
         let mut positions: Vec<(String, u8, u8)> = Vec::new();
